@@ -712,6 +712,11 @@ def addSrc (s : St) (m : ModId) (x : Src) : St × Int :=
     -- rejected duplicate: a descriptor duplicated on request is closed again
     (if x.dup then s.emit (.close s!"dup:{x.key}") else s, EEXIST)
   | none =>
+    -- kernel: a descriptor can be in the context's poll set only once (epoll_ctl fails with EEXIST);
+    -- the registration is rolled back and leaves no trace
+    if x.kind == .fd && stateIs s m .running &&
+        s.srcs.any (fun y => y.kind == .fd && y.key == x.key && y.polled && y.registered) then (s, EEXIST)
+    else
     let id := s.srcs.length
     let running := stateIs s m .running
     let s1 := { s with srcs := s.srcs ++ [{ x with polled := running, registered := true }] }
